@@ -15,7 +15,7 @@ sys.path.insert(0, os.path.dirname(os.path.dirname(os.path.abspath(__file__))))
 from sa import normalize  # noqa: E402
 
 root = sys.argv[1] if len(sys.argv) > 1 else "/repo"
-out = {}
+out = {"locals": {}, "functions": [], "module_names": {}, "class_attrs": {}}
 pkg = os.path.join(root, "ebpfcat")
 for dp, dn, fn in sorted(os.walk(pkg)):
     dn[:] = sorted(d for d in dn if d != "__pycache__")
@@ -29,11 +29,50 @@ for dp, dn, fn in sorted(os.walk(pkg)):
         tree = ast.parse(open(path, encoding="utf8").read())
         normalize.strip_noise(tree)
         normalize.canon_shapes(tree)
+        names = set()
+        for st in tree.body:
+            if isinstance(st, (ast.FunctionDef, ast.AsyncFunctionDef,
+                               ast.ClassDef)):
+                names.add(st.name)
+            elif isinstance(st, (ast.Assign, ast.AnnAssign, ast.AugAssign)):
+                for t in (st.targets if isinstance(st, ast.Assign)
+                          else [st.target]):
+                    for x in ast.walk(t):
+                        if isinstance(x, ast.Name):
+                            names.add(x.id)
+        out["module_names"][mod] = sorted(names)
+
+        def classes(node, prefix):
+            for c in ast.iter_child_nodes(node):
+                if isinstance(c, ast.ClassDef):
+                    q = prefix + "." + c.name
+                    attrs = set()
+                    for st in c.body:
+                        if isinstance(st, (ast.FunctionDef,
+                                           ast.AsyncFunctionDef,
+                                           ast.ClassDef)):
+                            attrs.add(st.name)
+                        elif isinstance(st, (ast.Assign, ast.AnnAssign)):
+                            for t in (st.targets if isinstance(
+                                    st, ast.Assign) else [st.target]):
+                                for x in ast.walk(t):
+                                    if isinstance(x, ast.Name):
+                                        attrs.add(x.id)
+                    out["class_attrs"][q] = sorted(attrs)
+                    classes(c, q)
+                elif isinstance(c, (ast.FunctionDef, ast.AsyncFunctionDef)):
+                    classes(c, prefix + "." + c.name)
+                else:
+                    classes(c, prefix)
+        classes(tree, mod)
         for q, func in normalize.function_table(tree, mod).items():
+            out["functions"].append(q)
             names = normalize.local_order(func)
             if names:
-                out[q] = names
+                out["locals"][q] = names
+out["functions"].sort()
 dst = os.path.join(os.path.dirname(os.path.dirname(os.path.abspath(__file__))),
                    "sa", "refnames.json")
 json.dump(out, open(dst, "w"), indent=0, sort_keys=True)
-print(f"{len(out)} functions with locals -> {dst}")
+print(f"{len(out['functions'])} functions, {len(out['locals'])} with locals "
+      f"-> {dst}")
